@@ -51,6 +51,9 @@ type Scenario struct {
 	Below bool `json:"below,omitempty"`
 	// CustomPayload: the chain signs a non-default payload (ManagerOptions.SignaturePayloadProvider).
 	CustomPayload bool `json:"custom_payload,omitempty"`
+	// Backlog: both sync event channels are full (sync lags far behind) when the scan starts; sync only
+	// resumes consuming later. Nothing found meanwhile may be lost.
+	Backlog bool `json:"backlog,omitempty"`
 }
 
 func genOutcomes(t *rapid.T) []world.FetchOutcome {
@@ -98,6 +101,7 @@ func gen(t *rapid.T) Scenario {
 	}
 	sc.Below = sc.Start > 0 && rapid.Bool().Draw(t, "below")
 	sc.CustomPayload = rapid.IntRange(0, 2).Draw(t, "custompayload") == 0
+	sc.Backlog = rapid.IntRange(0, 5).Draw(t, "backlog") == 0
 	return sc
 }
 
@@ -227,8 +231,26 @@ func run(sc Scenario, dir string) world.Verdict {
 			}()
 			m.RetrieveLoop(ctx)
 		}()
+		resume := make(chan struct{})
+		if sc.Backlog {
+			// fill both event channels to capacity with events sync has not got round to yet
+			dh, _ := fw.DecodeHeader(c.Blocks[0].HeaderBlob)
+			dh.SetCustomVerifier(c.Opts.Payload())
+			dd := &types.Data{Metadata: &types.Metadata{ChainID: "backlog", Height: 1}}
+			for i := 0; i < block.VerifEventInChLength; i++ {
+				m.VerifHeaderInCh() <- block.NewHeaderEvent{Header: dh, DAHeight: 0}
+				m.VerifDataInCh() <- block.NewDataEvent{Data: dd, DAHeight: 0}
+			}
+		} else {
+			close(resume)
+		}
 		go func() {
 			defer wg.Done()
+			select {
+			case <-ctx.Done():
+				return
+			case <-resume:
+			}
 			for {
 				select {
 				case <-ctx.Done():
@@ -251,6 +273,9 @@ func run(sc Scenario, dir string) world.Verdict {
 		}
 		signals := nOutcomes + len(sc.Heights) + 6
 		for s := 0; s < signals && loopPanic == nil; s++ {
+			if sc.Backlog && s == 2 {
+				close(resume) // sync catches up and starts consuming
+			}
 			select {
 			case m.VerifRetrieveCh() <- struct{}{}:
 			default:
@@ -374,6 +399,9 @@ func run(sc Scenario, dir string) world.Verdict {
 		}
 		if sc.CustomPayload {
 			ls = append(ls, "custom-signature-payload")
+		}
+		if sc.Backlog {
+			ls = append(ls, "sync-backlog-full")
 		}
 		return world.OK(successAfterFailure && junkNextToGenuine && multiChunk, ls...)
 	})
